@@ -54,6 +54,8 @@ func main() {
 	switch os.Args[1] {
 	case "rand1":
 		cmdRand1(os.Args[2:])
+	case "play":
+		cmdPlay(os.Args[2:])
 	case "sweep8":
 		cmdSweep8(os.Args[2:])
 	default:
